@@ -390,6 +390,9 @@ struct Job {
     probes: Vec<Vec<String>>,
     defs: Vec<(String, String)>,
     name: String,
+    // compile this erroneous text first, on the same thread, under this other input name (C05: nothing of an
+    // earlier compilation may show up in a later one)
+    prename: String,
 }
 
 fn parse_jobs(text: &str) -> Vec<Job> {
@@ -448,6 +451,7 @@ fn parse_jobs(text: &str) -> Vec<Job> {
             "probe" => j.probes.push(f[1..].iter().map(|s| s.to_string()).collect()),
             "def" => j.defs.push((unhex_s(f[1]), unhex_s(f[2]))),
             "name" => j.name = unhex_s(f[1]),
+            "prename" => j.prename = unhex_s(f[1]),
             _ => {}
         }
     }
@@ -789,6 +793,13 @@ fn run_compile(j: &Job, scratch: &str) -> String {
         for (n, c) in &j.files {
             let _ = std::fs::write(format!("{}/{}", dir, n), c);
         }
+    }
+    if !j.prename.is_empty() {
+        let mut pre = j.clone();
+        pre.name = j.prename.clone();
+        pre.src = b"char before; void main() { before = undeclared_in_the_previous_unit; }\n".to_vec();
+        pre.files = Vec::new();
+        let _ = compile_once(&pre, &dir);
     }
     let first = compile_once(j, &dir);
     let mut same = true;
